@@ -570,7 +570,8 @@ MANIFEST = {
             "first attempt undelayed, wait <= max_retry_delay, new attempt while budget remains, "
             "start() result completed exactly once (spy on txaio.resolve/reject) with the right "
             "polarity, no exception escaping to reactor/loop/unhandled-error log, component listeners "
-            "connect/join/ready/leave/disconnect for every session.",
+            "connect/join/ready/leave/disconnect for every session."
+            " Transports that leave their retry options at the defaults next to configured ones (options never carry over between transports).",
     "note": "Trusted: ref/retry.py (written from the statement), harness/component.py (scripted router at "
             "octet level, fake endpoints / create_connection), env/ transports and virtual clocks. "
             "Connections take zero virtual time; joined sessions live 7 virtual seconds; the jitter "
